@@ -42,7 +42,7 @@ import vlib
 # (by-value recursion, non-ASCII names are rewritten) is filtered by `in_frag` itself
 FEATURES = {"bool", "int", "int_format", "number", "string", "null", "str_enum", "object", "closed_object",
             "map", "array", "nullable_type", "ref", "recursion", "rename", "str_len", "str_pattern", "int_bounds", "set", "fixed_array", "tuple",
-            "oneof_external"}
+            "oneof_external", "oneof_internal", "oneof_adjacent"}
 
 CORPUS = os.path.join(vlib.ROOT, "corpus", "convert")
 
@@ -241,6 +241,95 @@ def oneof_docs():
     doc({"oneOf": [xs("a"), xt("V", {"type": "string"})], "default": "a"})
     doc({"oneOf": [xs("a")], "anyOf": [xs("a")]})
     doc({"anyOf": [xs("a"), xt("V", {"type": "string"})]})
+    docs.extend(tagged_docs())
+    return docs
+
+
+def tg(v, typed=True):
+    return {"type": "string", "enum": [v]} if typed else {"enum": [v]}
+
+
+def tb(props, closed=True, req=None, **kw):
+    b = {"type": "object", "properties": props, "required": sorted(props) if req is None else req}
+    if closed:
+        b["additionalProperties"] = False
+    b.update(kw)
+    return b
+
+
+def tagged_docs():
+    """adjacently (maybe_adjacently_tagged_enum) and internally (maybe_internally_tagged_enum) tagged enums, near misses"""
+    docs = []
+    bdef = {"type": "object", "properties": {"z": {"type": "boolean"}}}
+
+    def doc(e, **more):
+        d = {"B": bdef, "E": e}
+        d.update(more)
+        docs.append({"definitions": d})
+    # ---- adjacent: tag + content
+    for pl in ONE_PAYLOADS:
+        doc({"oneOf": [tb({"t": tg("A"), "c": pl}), tb({"t": tg("bee")})]})
+        doc({"oneOf": [tb({"kind": tg("x-y"), "data": pl}), tb({"kind": tg("Z"), "data": {"type": "string"}})]})
+        doc({"type": "object", "properties": {"e": {"oneOf": [tb({"t": tg("A"), "c": pl}), tb({"t": tg("B")})]}}, "required": ["e"]})
+        doc({"type": "array", "items": {"oneOf": [tb({"t": tg("A"), "c": pl}), tb({"t": tg("B"), "c": {"type": "integer"}})]}})
+    doc({"oneOf": [tb({"t": tg("A"), "c": {"type": "string"}})]})                                  # one branch
+    doc({"oneOf": [tb({"t": tg("A")}), tb({"t": tg("B")})]})              # tags only: no content name -> not adjacent
+    doc({"oneOf": [tb({"t": tg("A"), "c": {"type": "string"}}, closed=False), tb({"t": tg("B")})]})      # open branch (C02-F2 shape)
+    doc({"oneOf": [tb({"t": tg("A"), "c": {"type": "string"}}), tb({"t": tg("B")}, closed=False)]})
+    doc({"oneOf": [tb({"t": tg("A"), "c": {"type": "string"}}, req=["t"]), tb({"t": tg("B")})]})          # optional content
+    doc({"oneOf": [tb({"t": tg("A"), "c": {"type": "string"}}), tb({"t": tg("A")})]})                     # same tag twice
+    doc({"oneOf": [tb({"t": tg("A"), "c": {"type": "string"}}), tb({"t": tg("B"), "d": {"type": "string"}})]})   # three names
+    doc({"oneOf": [tb({"t": tg("A", False), "c": {"type": "string"}}), tb({"t": tg("B", False)})]})        # untyped tag
+    doc({"oneOf": [tb({"t": {"type": "string", "const": "A"}, "c": {"type": "string"}}), tb({"t": {"const": "B"}})]})
+    doc({"oneOf": [tb({"t": tg("A"), "c": tg("k")}), tb({"t": tg("B"), "c": tg("l")})]})                   # two constant properties
+    doc({"oneOf": [tb({"t": tg("A"), "c": tg("k")}), tb({"t": tg("B"), "c": {"type": "string"}})]})
+    doc({"oneOf": [tb({"t": {"type": "string", "enum": ["A", "A2"]}, "c": {"type": "string"}}), tb({"t": tg("B")})]})   # multi-valued tag
+    doc({"oneOf": [tb({"t": tg("a-b"), "c": {"type": "string"}}), tb({"t": tg("a_b")})]})                 # identifiers clash
+    # ---- internal: the members beside the tag
+    members = [{"a": {"type": "integer"}, "b-c": {"type": "string"}}, {"a": {"type": "integer"}},
+               {"in": {"type": "object", "properties": {"k": {"type": "boolean"}}}, "n": {"type": ["string", "null"]}},
+               {"e": {"type": "string", "enum": ["p", "q"]}, "l": {"type": "array", "items": {"type": "string"}}},
+               {"r": {"$ref": "#/definitions/B"}, "s": {"type": "string", "maxLength": 3}},
+               {"x": {"type": "string"}, "y": {"type": "string"}, "z": {"type": "integer"}}]
+    for m in members:
+        for closed in (True, False):
+            for req in (None, ["tagg"]):
+                p1 = dict(m, tagg=tg("Eff"))
+                doc({"oneOf": [tb(p1, closed, req=req), tb({"tagg": tg("gee"), "w": {"type": "integer"}, "v": {"type": "string"}}, closed)]})
+                doc({"oneOf": [tb(p1, closed, req=req), tb({"tagg": tg("unit")}, closed)]})
+                doc({"type": "object", "properties": {"e": {"oneOf": [tb(p1, closed, req=req), tb({"tagg": tg("u")}, closed)]}}, "required": ["e"]})
+    doc({"oneOf": [tb({"tagg": tg("A"), "a": {"type": "integer"}, "b": {"type": "string"}}, True),
+                   tb({"tagg": tg("B"), "c": {"type": "integer"}, "d": {"type": "string"}}, False)]})      # mixed closedness (C02-F1)
+    doc({"oneOf": [tb({"tagg": tg("A"), "a": {"type": "integer"}, "b": {"type": "string"}}, False),
+                   tb({"tagg": tg("B"), "c": {"type": "integer"}, "d": {"type": "string"}}, True)]})
+    doc({"oneOf": [tb({"tagg": tg("A"), "a": {"type": "integer"}, "b": {"type": "string"}}, req=["a", "b"]),
+                   tb({"tagg": tg("B"), "c": {"type": "integer"}, "d": {"type": "string"}})]})             # optional tag
+    doc({"oneOf": [tb({"tagg": tg("A"), "a": {"type": "integer"}, "b": {"type": "string"}}),
+                   tb({"tagg": tg("A"), "c": {"type": "integer"}, "d": {"type": "string"}})]})             # same value twice
+    doc({"oneOf": [tb({"tagg": {"type": "string", "enum": ["A", "A2"]}, "a": {"type": "integer"}, "b": {"type": "string"}}),
+                   tb({"tagg": tg("B"), "c": {"type": "integer"}, "d": {"type": "string"}})]})             # multi-valued tag
+    doc({"oneOf": [tb({"k1": tg("A"), "k2": tg("X"), "a": {"type": "integer"}}),
+                   tb({"k1": tg("B"), "k2": tg("Y"), "b": {"type": "integer"}, "c": {"type": "integer"}})]})   # two tags: the least
+    doc({"oneOf": [tb({"k1": tg("A"), "k2": tg("X"), "a": {"type": "integer"}}),
+                   tb({"k1": tg("B"), "k2": tg("X"), "b": {"type": "integer"}, "c": {"type": "integer"}})]})   # k2 not distinct
+    doc({"oneOf": [tb({"tagg": tg("A"), "a": {"type": "integer"}, "b": {"type": "string"}}),
+                   {"type": "string"}]})                                                                # a non-object branch
+    doc({"oneOf": [tb({"tagg": tg("A"), "a": {"type": "integer"}, "b": {"type": "string"}}),
+                   tb({"tagg": tg("B"), "c": {"type": "integer"}, "d": {"type": "string"}}, title="T")]})
+    doc({"oneOf": [tb({"tagg": tg("A"), "foo-bar": {"type": "integer"}, "foo_bar": {"type": "string"}}),
+                   tb({"tagg": tg("B"), "c": {"type": "integer"}, "d": {"type": "string"}})]})             # field identifiers clash
+    doc({"oneOf": [tb({"tagg": tg("A"), "a": {"type": "object", "properties": {"k": {"type": "integer"}}}, "b": {"type": "string"}}),
+                   tb({"tagg": tg("B"), "a": {"type": "object", "properties": {"k": {"type": "string"}}}, "d": {"type": "string"}})]})  # E_a twice: name reuse
+    doc({"oneOf": [tb({"tagg": tg("A"), "a": {"type": "integer"}, "b": {"type": "string"}}, req=["tagg", "a", "zz"]),
+                   tb({"tagg": tg("B"), "c": {"type": "integer"}, "d": {"type": "string"}})]})             # required without schema
+    # awkward definition names: the members' type names use the RAW enum name
+    for dn in ["foo-bar", "1st", "x y", "Self"]:
+        docs.append({"definitions": {dn: {"oneOf": [
+            tb({"tagg": tg("A"), "in": {"type": "object", "properties": {"k": {"type": "integer"}}}, "b": {"type": "string", "enum": ["u"]}}),
+            tb({"tagg": tg("B")})]}}})
+        docs.append({"definitions": {dn: {"oneOf": [
+            tb({"t": tg("A"), "c": {"type": "object", "properties": {"in": {"type": "object", "properties": {"k": {"type": "integer"}}}}}}),
+            tb({"t": tg("B"), "c": {"type": "string", "enum": ["u"]}})]}}})
     return docs
 
 
@@ -393,7 +482,7 @@ def coq_case(i, doc, dump):
         return None
     lines = ["Definition D_%d : defs := %s.\n" % (i, cd)]
     if root is None:
-        conv, frag = "convert_doc ascii_classes D_%d" % i, "in_frag ascii_classes D_%d" % i
+        conv, frag = "convert_doc ascii_classes D_%d" % i, "in_frag_w ascii_classes D_%d" % i
     else:
         lines.append("Definition Rt_%d : schema := %s.\n" % (i, root))
         args = "ascii_classes D_%d %s Rt_%d" % (i, tocoq.ustr(doc["title"]), i)
